@@ -444,6 +444,8 @@ class Parser(object):
         # manually clone the position attributes.
         for k in ('_token_map', 'lexpos', 'lineno', 'colno'):
             setattr(p[0], k, getattr(p[1], k))
+        if p[1].comments:
+            p[0].comments = p[1].comments
 
     # identifier_name_string ~= identifier_name
     def p_property_name(self, p):
